@@ -8,7 +8,8 @@ CHECKS = {
         technique="concolic symbolic execution (z3, QF_LIA) of the real partition functions + symbolic-data kernel runs with write recorders, polynomial identity queries (z3 QF_LRA/NRA)",
         text="Bounded symbolic model checking of the real Python source of the threaded kernels: the partition arithmetic is explored "
              "path-by-path with N and target_block_size unbounded symbolic integers for each concrete thread count; each kernel is run once "
-             "per thread rank on symbolic data and the union of the (write-once) outputs is proved equal to the serial result. "
+             "per thread rank on symbolic data and the union of the (write-once) outputs is proved equal to the serial result; the world_rank / world_size striding of the term-operator "
+             "matvec and COO kernels (symmetries None / Z2 / U1 / U1U1, every sector) adds up to the serial result on a symbolic vector. "
              "A solver counterexample is replayed on the JIT-compiled code with real threads before it is reported.",
         note="Trusted: z3, the home-made concolic executor (qv/sx.py) and polynomial normaliser (qv/poly.py), numba compiling the kernels "
              "faithfully to their Python source. Outside: OS scheduling (replaced by write-disjointness), thread counts above the bound, RNG streams.",
@@ -20,8 +21,9 @@ CHECKS["C01"] = dict(
     technique="symbolic tensor execution of the real contraction routes (polynomial entries, symbolic exponent) + z3 identity queries (QF_LRA over monomials, QF_NRA cross-check) against a sum-of-products reference",
     text="Bounded symbolic model checking: every contraction entry point of the real library is executed on networks (<= 4 tensors, dims in {1,2,3}, "
          "hyper-indices, disconnected parts, scalar tensors, MPS) whose entries and stored exponent are symbols; each returned value is proved equal, "
-         "for all real/complex entry values and all exponents at once, to an independent sum-of-products reference. Counterexamples are replayed "
-         "numerically on the un-stubbed code.",
+         "for all real/complex entry values and all exponents at once, to an independent sum-of-products reference; norm / overlap with every subset of "
+         "outer labels as explicit output_inds, and every derivation word of length <= 3 over {H, T, conj} of a TNLinearOperator (dense form, action, rmatvec, trace). "
+         "Counterexamples are replayed numerically on the un-stubbed code.",
     note="Trusted: z3, qv/poly.py normaliser (validated per run by numeric cross-runs of the same harness), cotengra executing the same path on object arrays as on "
          "float arrays. Abstracted: max-abs factor of exponent stripping = arbitrary positive factor. Outside: rounding, > 4 tensors, slicing, other backends.",
     design="3/C01",
@@ -30,10 +32,10 @@ CHECKS["C01"] = dict(
 CHECKS["C05"] = dict(
     technique="symbolic tensor execution of the real split routines with LAPACK contract stubs + linear Nullstellensatz certificates (z3 QF_LRA); concolic execution (z3 QF_NRA path conditions) of the generic and numba truncation kernels on symbolic singular values",
     text="Bounded symbolic model checking. (a) Tensor.split / tensor_split / array_split run on symbolic rank-2/3 tensors for the method x absorb x get table with "
-         "LAPACK replaced by contract stubs; reconstruction, label bookkeeping and every isometry flag are certified modulo the stub contracts for all entry values. "
-         "(b) both truncation implementations run path-by-path on symbolic ordered singular values and a symbolic cutoff for all cutoff modes, caps and renorm powers; "
+         "LAPACK replaced by contract stubs (real tall / wide / dim-1, complex wide and strictly tall); reconstruction, label bookkeeping and every isometry flag are certified modulo the stub contracts for all entry values. "
+         "(b) both truncation implementations run path-by-path on symbolic ordered singular values with a symbolic cutoff, or none (static truncation), for all cutoff modes, caps and renorm powers; "
          "the kept count is proved minimal by the documented rule, the kept values are the leading prefix, the reported error equals the discarded weight and the two "
-         "implementations agree on every path.",
+         "implementations agree on every path. (c) the memoised option parsers give the same answer in every call order of equal-hashing spellings.",
     note="Trusted: z3, qv engines, LAPACK meeting its contracts (stubs), Eckart-Young (cited). Abstracted: machine-eps regularisation = 0, QR stub has positive diagonal, "
          "singular values strictly positive in family (a). Outside: rounding/precision, randomized and iterative drivers, n > 5 singular values.",
     design="3/C05",
@@ -56,8 +58,9 @@ CHECKS["C08"] = dict(
     text="Bounded symbolic model checking. (i) Histories of <= 3 operations (canonicalize, swaps, swap_site_to, one/two-site gates incl. swap+split / nonlocal / sub-MPO, compress_site, "
          "measure, canonical queries) are run on a symbolic MPS (L <= 4, D = d = 2); after every operation the state equals the reference and every claim of the outgoing record "
          "(left/right isometry of each site outside the range, every left_inds flag) is certified modulo the stub contracts. (ii) One inductive step: on an arbitrary state that "
-         "satisfies a record (c, c) by hypothesis, every consumer (Schmidt values, canonical expectation, reduced density matrix, magnetization, measurement with/without removal) "
-         "equals the dense definition and leaves a sound record.",
+         "satisfies an arbitrary record (lo, hi), lo <= hi, by hypothesis, canonicalize(where) for every window (both site orders) preserves the state and leaves a true record inside the "
+         "window, and every consumer (Schmidt values, canonical expectation and reduced density matrix on ascending and descending site tuples, magnetization, measurement with/without "
+         "removal, one-site gates, compress_site with / without canonize) equals the dense definition and leaves a sound record.",
     note="Trusted: z3, qv engines (Poly normaliser, elimination/reduction = certificate search; z3 checks the certificate), LAPACK contracts (stubs), 'isometric conjugation "
          "preserves the non-zero spectrum' (Schmidt values). Outside: count_canonized/calc_current_orthog_center (allclose detector), cyclic MPS, truncation, RNG, complex symbolic "
          "entries (np.real on object arrays), L > 4.",
@@ -113,7 +116,10 @@ CHECKS["C10"] = dict(
     text="Bounded symbolic model checking: (1) for general complex symbolic MPOs and MPSs (L <= 3) the energy network of a DMRG object equals <k|H k> computed by the library's own ham.apply "
          "and by an independent dense reference; (2) every position of the moving environment contracts to the value of the whole; (3) with the eigensolver replaced by its contract "
          "(H_eff v = lambda v, v^dag v = 1), after every local update of a DMRG1/DMRG2 sweep in either direction the reported local and total energies equal <psi|H psi> of the updated, "
-         "normalised state and dmrg.state reproduces the reported energy through ham.apply (L = 2 mandatory; L = 3, 4 thorough); (4) the bond cap holds after 2-site updates. "
+         "normalised state and dmrg.state reproduces the reported energy through ham.apply (L = 2 mandatory; L = 3, 4 thorough); (4) the bond cap holds after 2-site updates; "
+         "(1b) the local operator handed to the eigensolver, dense or matrix-free, is the effective Hamiltonian of the block (bilinear identity z^dag A x == <k[z]|H k>, complex non-symmetric H); "
+         "(5) the real solve() driver with the sweep replaced by symbolic energies: sweep j runs with the j-th scheduled bond cap / cutoff / direction (also across two solve() calls), "
+         "`energy` is the energy of the last sweep, the convergence flag is |E_n - E_{n-1}| < tol and stops the loop. "
          "A numeric cross-run solves random complex Hermitian MPOs and compares with exact diagonalisation.",
     note="Trusted: z3, qv engines, eigensolver and LAPACK contracts. Outside: convergence, monotone decrease (inequality contract of the eigensolver), periodic boundaries, DMRGX, truncation.",
     design="3/C10",
@@ -121,10 +127,10 @@ CHECKS["C10"] = dict(
 
 CHECKS["C11"] = dict(
     technique="symbolic execution of LocalHam1D/LocalHamGen on symbolic terms (z3 identity queries); concolic execution (z3 QF_LRA) of the real TEBD.update_to/step/sweep/at_times on symbolic t0, dt, T with recorders for MPS and gate cache; real sweeps with an uninterpreted matrix exponential and LAPACK stubs (certificates)",
-    text="Bounded symbolic model checking. (a) For L <= 5, open/periodic, dict/single/flipped-key inputs the stored terms sum to the supplied one- and two-site terms for all entry values, "
+    text="Bounded symbolic model checking. (a) For L <= 5, open/periodic, dict / single / flipped-key / default-plus-override (either key orientation) inputs the stored terms sum to the supplied one- and two-site terms for all entry values, "
          "get_gate(where) has its factors in the order of where, get_gate_expm exponentiates x * that term. (b) For symbolic t0, dt, T1 <= T2 with (T - t0) <= 3 dt (4 dt thorough), orders 1, 2, 4, "
          "L = 3..6: t == T exactly at return, queue drained, step sizes dt,...,dt,remainder, the recorded sweeps (adjacent equal layers merged) are the documented palindromic formula per step, "
-         "per bond the exponents sum to T - t0, every bond lies in exactly one layer, layers consist of disjoint bonds (except odd periodic chains, as documented). (c) One step through the real "
+         "per bond the exponents sum to T - t0, every bond lies in exactly one layer, layers consist of disjoint bonds (except odd periodic chains, as documented); the same holds at every state yielded by at_times, and in imaginary time the renormalised site is the tracked orthogonality centre. (c) One step through the real "
          "sweeps (L = 3, 4; order 1, 2; open and periodic) equals the reference product of the requested exponentials applied to the initial state, with generators -i dt frac * term(bond).",
     note="Trusted: z3, qv engines, LAPACK contracts. (b) replaces MPS and gate cache by recorders; (c) treats expm as uninterpreted per generator (real scipy expm in the numeric cross-run). "
          "Outside: convergence-rate measurements, err estimate, truncation, 2D/3D simple update beyond the Hamiltonian object.",
